@@ -186,7 +186,12 @@ def insertSorted (a : Nat) : List Nat → List Nat
 /-- canonical result line -/
 def resultStr (id : String) (s : St) : String :=
   let chron := s.log.reverse
-  let written := chron.foldl (fun acc e => match e with | .mw a _ => insertSorted a.toNat acc | _ => acc) []
+  let nw : Nat := chron.foldl (fun (n : Nat) e => match e with | .mw _ _ => n + 1 | _ => n) 0
+  let written : List Nat :=
+    if nw ≤ 64 then chron.foldl (fun acc e => match e with | .mw a _ => insertSorted a.toNat acc | _ => acc) []
+    else
+      let marks := chron.foldl (fun (m : ByteArray) e => match e with | .mw a _ => m.set! a.toNat 1 | _ => m) (ByteArray.mk (Array.replicate 65536 0))
+      (List.range 65536).filter (fun i => marks.get! i == 1)
   let memS := if written.isEmpty then "-" else
     String.intercalate "," (written.map (fun a => hexN a 4 ++ "=" ++ hex8 (s.mem (BitVec.ofNat 16 a))))
   let n := chron.length
@@ -198,18 +203,37 @@ def resultStr (id : String) (s : St) : String :=
     b01 s.IFF1 ++ b01 s.IFF2 ++ b01 s.HALT, intStr s.IM, "I", intrStr s.Interrupt,
     "MV", memValStr s.Memory, "MEM", memS, "NLOG", toString n, "LH", toString (logHash chron), "LOG", logS]
 
-/-- run `steps` Steps with the injection schedule -/
+/-- memory as a flat array (only used by the driver to keep long runs linear) -/
+def memArray (m : U16 → U8) : ByteArray := Id.run do
+  let mut a := ByteArray.emptyWithCapacity 65536
+  for i in [0:65536] do
+    a := a.push (m (BitVec.ofNat 16 i)).toNat.toUInt8
+  return a
+def arrMem (a : ByteArray) : U16 → U8 := fun ad => BitVec.ofNat 8 (a.get! ad.toNat).toNat
+/-- fold the write events of a (newest first) log segment into the array, oldest first -/
+def applyWrites (a : ByteArray) (seg : List Ev) : ByteArray :=
+  seg.reverse.foldl (fun a e => match e with | .mw ad v => a.set! ad.toNat v.toNat.toUInt8 | _ => a) a
+
+/-- run `steps` Steps with the injection schedule.  Long runs re-represent the memory function as an array every
+    128 Steps (same function, extensionally: the array is the old array plus the writes logged since) -/
 def runSteps (step : M Unit) (v : Vec) : Res Unit :=
-  let rec go (k : Nat) (fuel : Nat) (s : St) : Res Unit :=
+  let long := v.steps > 300
+  let rec go (k : Nat) (fuel : Nat) (s : St) (arr : ByteArray) (seen : Nat) : Res Unit :=
     match fuel with
     | 0 => .ok () s
     | fuel+1 =>
       let s := match v.inj.find? (fun i => i.at_ == k) with
         | some i => { s with Interrupt := some i.intr }
         | none => s
+      let (s, arr, seen) :=
+        if long && k % 128 == 0 then
+          let n := s.log.length
+          let arr := applyWrites arr (s.log.take (n - seen))
+          ({ s with mem := arrMem arr }, arr, n)
+        else (s, arr, seen)
       match step s with
-      | .ok _ s' => go (k+1) fuel s'
+      | .ok _ s' => go (k+1) fuel s' arr seen
       | .panic w => .panic w
-  go 0 v.steps v.st
+  go 0 v.steps v.st (if long then memArray v.st.mem else ByteArray.empty) 0
 
 end Z80.Proto
